@@ -28,7 +28,7 @@ import (
 )
 
 type op struct {
-	Kind string // complete | holdw | holdr | holdp | relw | relr | relp | recv | restart
+	Kind string // complete | holdw | holdr | holdp | holdc | relw | relr | relp | relc | current | recv | restart
 	On   bool
 	Pick int
 	SP   bool // complete: the checkpoint is a savepoint
@@ -46,7 +46,7 @@ func gen(rt *rapid.T) prog {
 	n := rapid.IntRange(2, 30).Draw(rt, "n")
 	for i := 0; i < n; i++ {
 		p.Ops = append(p.Ops, op{
-			Kind: rapid.SampledFrom([]string{"complete", "complete", "complete", "complete", "holdw", "holdr", "holdp", "relw", "relr", "relp", "relp", "recv", "recv", "restart"}).Draw(rt, "kind"),
+			Kind: rapid.SampledFrom([]string{"complete", "complete", "complete", "complete", "holdw", "holdr", "holdp", "holdc", "relw", "relr", "relp", "relp", "relc", "current", "current", "recv", "recv", "restart"}).Draw(rt, "kind"),
 			On:   rapid.Bool().Draw(rt, "on"),
 			Pick: rapid.IntRange(0, 3).Draw(rt, "pick"),
 			SP:   rapid.IntRange(0, 3).Draw(rt, "sp") == 0,
@@ -221,7 +221,7 @@ func exec(p prog, c *hx.Case) error {
 		writeOpFile()
 	}
 	savepoints := map[uint64]int{} // savepoint id -> incarnation of the job process that completed it
-	outOfOrder := 0
+	outOfOrder, currentChecks := 0, 0
 	var notes [][]uint64 // retention notifications in the order received
 	var completedIDs []uint64
 	overlaps, restarts := 0, 0
@@ -272,7 +272,7 @@ func exec(p prog, c *hx.Case) error {
 			// (publications are serialized: behind a held write the next one queues up
 			// without starting its own write)
 			deadline := time.Now().Add(5 * time.Second)
-			for loc.StartedCount("write") == before && loc.Blocked("write") == 0 && loc.Blocked("remove") == 0 && heldCount() == heldBefore && time.Now().Before(deadline) {
+			for loc.StartedCount("write") == before && loc.Blocked("write") == 0 && loc.Blocked("remove") == 0 && loc.Blocked("copy") == 0 && heldCount() == heldBefore && time.Now().Before(deadline) {
 				time.Sleep(10 * time.Microsecond)
 			}
 		case "holdw":
@@ -299,6 +299,23 @@ func exec(p prog, c *hx.Case) error {
 			}
 			pmu.Unlock()
 			time.Sleep(50 * time.Microsecond)
+		case "holdc":
+			loc.SetHold("copy", o.On)
+		case "relc":
+			loc.ReleaseOne("copy", "")
+		case "current":
+			// While the artifact of a savepoint is being copied (held here), its snapshot
+			// file is written and nothing else is being published: an assembly restart
+			// at this moment (jobs.Job.start deploys from CurrentCheckpoint) has to
+			// recover from it.
+			time.Sleep(100 * time.Microsecond)
+			if loc.Blocked("copy") > 0 && loc.Blocked("write") == 0 {
+				newest, _ := newestIn(loc)
+				if cur := store.CurrentCheckpoint().GetId(); cur != newest {
+					return hx.Errf("step %d: while the artifact of a savepoint is being copied, an assembly restart would recover from checkpoint %d (CurrentCheckpoint) although checkpoint %d is completed and in storage", step, cur, newest)
+				}
+				currentChecks++
+			}
 		case "relw":
 			loc.ReleaseOne("write", "")
 		case "relr":
@@ -310,6 +327,7 @@ func exec(p prog, c *hx.Case) error {
 			// has not landed by then dies with the process (a crash point)
 			loc.SetHold("write", false)
 			loc.SetHold("remove", false)
+			loc.SetHold("copy", false)
 			releaseAllPubs()
 			recvAll(2 * time.Millisecond)
 			store = newStore()
@@ -327,6 +345,7 @@ func exec(p prog, c *hx.Case) error {
 	// let everything in flight land
 	loc.SetHold("write", false)
 	loc.SetHold("remove", false)
+	loc.SetHold("copy", false)
 	releaseAllPubs()
 	// every publication of the current incarnation reports its end (an event, or an
 	// error); retention notifications keep being received meanwhile
@@ -469,6 +488,7 @@ func exec(p prog, c *hx.Case) error {
 	c.LabelIf(nameOrderDiffers > 0, "file-name-order-differs-from-id-order")
 	c.LabelIf(restarts > 0, "restart")
 	c.LabelIf(spDone > 0, "savepoint")
+	c.LabelIf(currentChecks > 0, "CurrentCheckpoint-read-during-an-artifact-copy")
 	c.LabelIf(heldCount() > 0, "publication-held-at-its-start")
 	c.LabelIf(outOfOrder > 0, "publications-begin-out-of-completion-order")
 	if len(completedIDs) >= 2 && (nameOrderDiffers > 0 || overlaps > 0 || outOfOrder > 0) {
